@@ -4,12 +4,48 @@ import json, os, subprocess
 V = os.path.dirname(os.path.dirname(os.path.abspath(__file__)))
 
 CLAIMED = {
+ "C01": dict(
+   technique="runtime monitoring: round-trip / fixed-point monitor over generated fonts and reader-accepted byte inputs, with an independent normal-form model of the documented precedence rules and cross-process determinism comparison",
+   level="exploration",
+   text="Generated fonts of all three outline kinds x glyph-count, cmap, layout and header-field classes are written twice in-process and once in a second OS process (byte-identical?), read back and compared field by field with the property's normal form, then taken round the cycle again (Read(Write(G))==G, second write byte-identical); corpus fonts, library-written files and accepted table-level mutants provide the 'for every accepted byte string' side. Sampled, not exhaustive.",
+   note="trusted: the harness's normal-form function (precedence rules quoted from the property), go-cmp comparator options (FDSelect extensional, reals to 9 digits, nil==empty, TrueType 'no widths'==all-zero widths), the font generator staying inside the representable domain",
+   design="5/C01"),
+ "C03": dict(
+   technique="runtime monitoring: independent-decoder monitor (own spec-derived container validator + header.Read + golang.org/x/image/font/sfnt) over writer outputs",
+   level="exploration",
+   text="header.Write on random tag->bytes maps (table counts around every power of two, all length residues, nil and ill-named entries, three scaler types, with/without head) is judged by sfntwalk (directory order, search fields, alignment, overlap, zero padding, per-table and whole-file checksums, table bytes) and by header.Read; complete generated fonts written by Write/WriteTrueTypePDF/WriteOpenTypeCFFPDF are additionally parsed by x/image and compared on glyph count, units per em, character mapping, advances, glyph names and outlines (simple and composite TrueType, integer-coordinate CFF).",
+   note="trusted: sfntwalk (200 lines written from the OpenType spec), x/image within its 26.6 range (cases outside are skipped and counted), the harness's TrueType contour-to-segment conversion",
+   design="5/C03"),
+ "C10": dict(
+   technique="runtime monitoring: reference-model monitor recovering the new->old glyph map from content signatures and comparing every cmap code, encoding slot, kerning pair and substitution rule through it",
+   level="exploration",
+   text="Generated TrueType (nested/shared composites), simple CFF (built-in encodings) and CID-keyed fonts with GSUB 1.1/4.1 + GPOS 2.1 are subset to duplicate-free lists of every size class and order; each listed glyph must equal the original by a recursive content signature, extras must be original glyphs, cmaps/encodings/kerning/ligature rules are compared through the recovered index map, GSUB is applied before and after through FindLookups, and the subset is written and read back. cff.Outlines.Subset gets the same glyph/encoding clauses.",
+   note="trusted: the signature function; glyphs with non-unique signatures are excluded from inverse-map clauses (counted). Two genuine defects are listed in known_findings.json",
+   design="5/C10"),
+ "C11": dict(
+   technique="runtime monitoring: round-trip monitor plus independent-decoder monitor (glyfref: own simple-glyph encoder/decoder and composite writer from the OpenType glyf chapter)",
+   level="exploration",
+   text="Random glyph sets (nil/simple/composite; every flag and coordinate form drawn independently per point by glyfref, repeat counts 0/1/n, padding 0..3, zero-contour glyphs, all 16 composite argument/transform size combinations, sets on both sides of the 64 KiB / 128 KiB loca limits) go through Encode/Decode (equal?), loca is parsed independently, harness-written glyf/loca bytes in both loca formats are decoded by the library, every simple glyph is point-decoded by library and glyfref, Components/FixComponents are compared with the generated lists and expected bytes.",
+   note="trusted: glyfref (self-checked on every glyph: it must decode its own encoding); x/image is the third opinion on outlines in C03",
+   design="5/C11"),
+ "C12": dict(
+   technique="runtime monitoring: round-trip monitors on table values plus definition-recomputing monitor over written files and cross-consistency monitor over the font's metric queries",
+   level="exploration",
+   text="Table values (hmtx/hhea incl. every (n, constant tail) for n<=40, caret slopes, head, maxp, OS/2, post) go through Encode/Decode with an independent reader as second opinion; for generated fonts the derived fields of the written hhea/head/OS2 tables are recomputed from their definitions with plain offset readers (advanceWidthMax, min side bearings, xMaxExtent, numberOfHMetrics consistency, head bbox, average width, first/last char), and GlyphBBoxes/GlyphBBox/FontBBox/FontBBoxPDF/Widths/WidthsPDF/GlyphWidthPDF/IsFixedPitch are compared with the outlines and with each other.",
+   note="trusted: the offset readers (field offsets from the OpenType spec); TrueType boxes are the stored headers which the generator sets to the true bounds",
+   design="5/C12"),
  "C17": dict(
    technique="runtime monitoring: reference-model monitor (slice + cursor) run in lock-step with parser.Parser after every operation, plus hook invariant on the cache window",
    level="exploration",
    text="Every operation sequence of length <=3 (quick) / <=4 (thorough) over a boundary-offset alphabet, for 14 input lengths x 5 source behaviours, is executed on the real parser next to a slice model; value, error class, Pos, Size and the window invariant are compared after every step; random 200-step sequences add arbitrary arguments. Bounded-exhaustive inside the alphabet, sampled outside; not a proof.",
    note="trusted: the slice model (40 lines), the test sources' adherence to io.Reader/io.Seeker; hook VerifState for the window invariant (check works without it)",
    design="5/C17"),
+ "C18": dict(
+   technique="runtime monitoring with fault injection: every fault offset of the harness-supplied io.Writer / io.ReaderAt / io.Reader is enumerated and the outcome (error, byte count, prefix, equality with the fault-free font) is checked",
+   level="fault_enumeration",
+   text="For each corpus font and each writer API every k in 0..len(output) is injected in two variants (refuse the crossing call / short write): error non-nil, count == bytes accepted, destination is a prefix of the fault-free output, success with count L for k>=L. For the reader every truncation length (ReaderAt and streaming) and every k of a ReaderAt/Reader that fails with a non-EOF error are enumerated; a recording run gives the offsets a fault-free read touches, which decides whether an error or an equal font is required. Exhaustive in k for files below 24 KB, boundary neighbourhoods + stride 7 above.",
+   note="trusted: determinism of Write (C01) for the prefix reference; corpus is a dozen fonts, not all fonts",
+   design="5/C18"),
 }
 
 REASON_TODO = "check not built yet in this session; no claim is made"
